@@ -375,6 +375,20 @@ def raceShapeRaw (frm to : PSt) : List (Nat × Nat × Nat × String) → Bool
   | r :: rest =>
     r.1 != F.kMemberWrite && StOp.ofRaw (r.1, r.2.1, r.2.2.1) == StOp.cas frm to && rest.all (quietRaw frm)
 
+/-- `rproc.st` after a list of generated shared events. -/
+def stRaw : List (Nat × Nat × Nat × String) → PSt → PSt
+  | [], st => st
+  | r :: rest, st =>
+    if r.1 = F.kMemberWrite then stRaw rest st
+    else match StOp.ofRaw (r.1, r.2.1, r.2.2.1) with
+      | .store v => stRaw rest v
+      | _ => stRaw rest st
+
+/-- Starting from `to`, no proper prefix of the events leaves `rproc.st = fin`:
+    `fin` is only reached by the very last event. -/
+def onlyLastRaw (to fin : PSt) (rows : List (Nat × Nat × Nat × String)) : Bool :=
+  (List.range rows.length).all fun k => stRaw (rows.take k) to != fin
+
 /-- `p` occurs in `l` (bytes of a path format). -/
 def hasInfix (p : List Nat) : List Nat → Bool
   | [] => p.isEmpty
